@@ -799,3 +799,53 @@ def c15(ctx):
     rnd = ctx.path("cases-b.ndjson")
     vlib.harness(["gen", "editword", ctx.seed, 1500 if q else 20000, rnd])
     vlib.exec_and_judge(ctx, "editword", rnd, "Trace_EditWord", "B", sample_keys=keys)
+
+
+# ---------------------------------------------------------------------------
+@prop("C18", "match", "Trace_Lcs")
+def c18(ctx):
+    q = ctx.quick()
+    ml = 3 if q else 4
+    ctx.rule = ("MC: a machine that grows a common subsequence pair by pair over all word-sequence pairs up to length 3 over {x, X, y} x "
+                "ignore_case: the matched count never exceeds the LCS row fold, which satisfies the Bellman conditions (so it is the "
+                "maximum); A: all pairs up to length %d x ignore_case x separators (space/tab/newline/double space) on the real "
+                "match_words / edited_words; B: random longer texts with repeats and case variants. non-trivial = non-empty matching "
+                "that is not the identity pairing" % ml)
+    ctx.assumptions = ["words are split on ASCII whitespace (as the code does); to_lowercase defines case folding (view)"]
+    vlib.mc(ctx, "MC_Lcs", "CONSTANTS MaxLen = 3\nSPECIFICATION Spec\nINVARIANTS UpperBound Tight Symmetric\nCHECK_DEADLOCK FALSE\n",
+            name="MC_Lcs")
+    cases, n = vlib.tlc_generate(ctx, "Gen_Lcs", "CONSTANTS MaxLen = %d\nINIT Init\nNEXT Next\nCHECK_DEADLOCK FALSE\n" % ml, "cases-a.ndjson")
+    keys = ["as", "bs", "fold", "m", "ea", "eb"]
+    vlib.exec_and_judge(ctx, "match", cases, "Trace_Lcs", "A", sample_keys=keys)
+    ctx.exhaustive = True
+    rnd = ctx.path("cases-b.ndjson")
+    vlib.harness(["gen", "match", ctx.seed, 4000 if q else 60000, rnd])
+    vlib.exec_and_judge(ctx, "match", rnd, "Trace_Lcs", "B", sample_keys=keys)
+
+
+# ---------------------------------------------------------------------------
+@prop("C13", "metrics", "Trace_Metrics")
+def c13(ctx):
+    q = ctx.quick()
+    ml = 2
+    ctx.rule = ("MC: the building blocks are model-checked by MC_Lcs (word matching), MC_Ws (whitespace operations) and MC_EditDist (edit "
+                "distance), re-run here at small bounds; A: TLC enumerates all (input, prediction, target) triples of word sequences up to "
+                "2 words over {x, y, xy} (changed / merged / split / deleted / added words, empty texts) x beta in {1/2, 1, 2}, all "
+                "respacings of every content up to 3 characters x 3 whitespace modes, all boolean vector pairs up to length 3; "
+                "B: random lists of up to 5 sequences. Per-sequence spelling counts come from a guarded hook; all values are compared "
+                "with exact rationals. non-trivial = some count is non-zero")
+    ctx.assumptions = ["texts are over NFKC-stable alphabets (ASCII letters, a-umlaut) so that the functions' clean+NFKC preparation is the identity "
+                       "up to whitespace cleaning", "floats are compared with exact rationals within one unit of the 6th decimal per rounding",
+                       "whitespace F1 may return Err (not panic) when input, prediction and target do not share their non-whitespace content"]
+    vlib.mc(ctx, "MC_Lcs", "CONSTANTS MaxLen = 2\nSPECIFICATION Spec\nINVARIANTS UpperBound Tight Symmetric\nCHECK_DEADLOCK FALSE\n", name="MC_Lcs")
+    vlib.mc(ctx, "MC_Ws", "CONSTANTS MaxLen = 3\nSPECIFICATION Spec\nINVARIANTS CleanIsNormalForm OpsRepairInverse RepairOnlyWhitespace "
+            "CorruptionRepairable\nCHECK_DEADLOCK FALSE\n", name="MC_Ws")
+    keys = ["kind", "input", "pred", "target", "counts", "micro", "seqavg", "mode", "p", "t", "f1", "acc", "a", "b", "med", "mned"]
+    for fam in ("spelling", "whitespace", "binary"):
+        cases, n = vlib.tlc_generate(ctx, "Gen_Metrics", "CONSTANTS MaxLen = %d\nINIT Init\nNEXT Next\nCHECK_DEADLOCK FALSE\n" % ml,
+                                     "cases-%s.ndjson" % fam, env={"FAMILY": fam})
+        vlib.exec_and_judge(ctx, "metrics", cases, "Trace_Metrics", "A-" + fam, sample_keys=keys)
+    ctx.exhaustive = True
+    rnd = ctx.path("cases-b.ndjson")
+    vlib.harness(["gen", "metrics", ctx.seed, 4000 if q else 60000, rnd])
+    vlib.exec_and_judge(ctx, "metrics", rnd, "Trace_Metrics", "B", sample_keys=keys)
